@@ -706,7 +706,7 @@ ZERO_TOLERANT_METRICS = ["additive_symmetric", "max_symmetric", "min_symmetric",
 # ---------------------------------------------------------------------------------------------------
 # the forest an object holds after learn(): judged on the object's OWN node features and labels
 # ---------------------------------------------------------------------------------------------------
-def learn_traces(rng, count, metrics=("euclidean", "log_squared_euclidean", "manhattan")):
+def learn_traces(rng, count, metrics=("euclidean", "log_squared_euclidean", "manhattan"), other_queries=False):
     """Runs SupervisedOPF.learn on small overlapping sets and returns (scenario-like dict, trace) pairs in which the
     training set is whatever the object's nodes hold afterwards (features, true labels); the training set is then
     re-predicted (resubstitution).  The forest left by learn() is a supervised training result like any other."""
@@ -737,6 +737,9 @@ def learn_traces(rng, count, metrics=("euclidean", "log_squared_euclidean", "man
             F = [np.array(nd.features, dtype=float).copy() for nd in nodes]
             L = [int(nd.label) for nd in nodes]
             res = [int(x) for x in m.predict(np.array(F))]
+            # (other_queries: the classifier learn() left is asked about samples it does not hold, too)
+            Qx = [np.array(v, dtype=float) for v in np.vstack([Xv, Xt[::-1] * 0.5 + 0.25 * Xv.mean(0), r.normal(size=(6, 2)) + sep])] if other_queries else []
+            resq = [int(x) for x in m.predict(np.array(Qx))] if Qx else []
         except Exception:
             continue            # learn's own failure modes are C17's business
         if len(set(L)) < 2:
@@ -747,8 +750,12 @@ def learn_traces(rng, count, metrics=("euclidean", "log_squared_euclidean", "man
         if not np.all(np.isfinite(D)) or not np.array_equal(D, D.T):
             continue
         costs = [float(nd.cost) for nd in nodes]
+        DQx = np.array([[fn(F[t].copy(), q.copy()) for q in Qx] for t in range(n)]) if Qx else np.zeros((n, 0))
+        if not np.all(np.isfinite(DQx)):
+            continue
         rk = H.Ranker()
         rk.add_all(D.ravel())
+        rk.add_all(DQx.ravel())
         rk.add_all(costs)
         if rk.unrankable:
             continue
@@ -758,7 +765,8 @@ def learn_traces(rng, count, metrics=("euclidean", "log_squared_euclidean", "man
             "n": n, "nl": n, "W": [[rk(D[a, b]) if a != b else 0 for b in range(n)] for a in range(n)], "L": [u.index(v) + 1 for v in L], "ev": [], "mst": [0] * n,
             "fin": {"cost": [rk(v) for v in costs], "pred": [int(nd.pred) + 1 for nd in nodes], "lab": [u.index(int(nd.predicted_label)) + 1 if int(nd.predicted_label) in u else 99 for nd in nodes],
                     "proto": [a + 1 for a, nd in enumerate(nodes) if nd.status == c.PROTOTYPE], "order": [int(x) + 1 for x in m.subgraph.idx_nodes]},
-            "q": [{"dx": [rk(D[t, j]) for t in range(n)], "res": (u.index(res[j]) + 1 if res[j] in u else 99), "self": j + 1} for j in range(n)],
+            "q": [{"dx": [rk(D[t, j]) for t in range(n)], "res": (u.index(res[j]) + 1 if res[j] in u else 99), "self": j + 1} for j in range(n)]
+                 + [{"dx": [rk(DQx[t, j]) for t in range(n)], "res": (u.index(resq[j]) + 1 if resq[j] in u else 99), "self": 0} for j in range(len(Qx))],
         }
         if any(not (1 <= o <= n) for o in tr["fin"]["order"]) or any(not (0 <= p_ <= n) for p_ in tr["fin"]["pred"]):
             continue
